@@ -298,7 +298,7 @@ fn net_case() -> BoxedStrategy<NetCase> {
 }
 
 pub fn run(ctx: &Ctx, rep: &Report) {
-    run_prop(ctx, rep, "net-routes", ctx.tier.pick(900, 15_000), &|| net_case(), &check);
+    run_prop(ctx, rep, "net-routes", ctx.tier.pick(900, 60_000), &|| net_case(), &check);
 }
 
 pub fn replay(sub: &str, case: &Value) -> Result<(), Fail> {
